@@ -773,3 +773,104 @@ _c09_prev4 = harnesses
 
 def harnesses(tier):   # noqa: F811
     return _c09_prev4(tier) + [ListReply()]
+
+
+# --------------------------------------------------------------------------------------------------------------
+# What is *shown* of a unit list: every entry that counts something - in particular the last one, which may be a fraction
+# below one - appears in the text, in order (the parts that are printed are the parts that are summed).
+
+class UnitListShown(Harness):
+    name = 'unit_list_reply.to_spans.shows_every_counting_entry'
+    props = ('C09', 'C04')
+    entry_name = '<UnitListReply as TokenFmt>::to_spans'
+    loop_bound = 40
+    describe = ('UnitListReply::to_spans on a list of 3 entries whose values are arbitrary rationals (each zero or not, the last possibly a '
+                'fraction below one): every non-zero entry is among the child spans, in list order')
+    bounds = ['3 entries; entries carry their raw value and a marker numeral']
+    expect_classes = ['return']
+    _concrete = None
+    N = 3
+
+    def build(self, ex, I):
+        f = ex.prog.src.structs['NumberParts']
+
+        def parts(raw, exact):
+            vals = [none(ex)] * len(f)
+            vals[f.index('raw_value')] = some(ex, raw)
+            vals[f.index('exact_value')] = some(ex, exact)
+            return Struct('NumberParts', vals)
+        ents, zero, vs = [], [], []
+        for i in range(self.N):
+            z = ex.choose(2, 'entry %d is zero' % i) == 1
+            v = I.real('v%d' % i)
+            ex.assume(v == 0 if z else v != 0)
+            if i < self.N - 1:
+                ex.assume(z3.IsInt(v))
+            zero.append(z)
+            vs.append(v)
+            ents.append(parts(number(rational(v), dim({'u%d' % i: (True, 1)})), 'E:%d' % i))
+        rest = parts(number(rational(I.real('total')), dim({'s': (True, 1)})), 'TOTAL')
+        rest.fields[f.index('quantity')] = some(ex, 'time')
+        rep = make_struct(ex, 'UnitListReply', {'rest': rest, 'list': Arr(ents)})
+        return [ref(rep)], {'zero': zero, 'vs': vs}
+
+    def entry(self, ex, args, ctx):
+        return ex.call(None, '<output::reply::UnitListReply as output::fmt::TokenFmt>::to_spans', list(args))
+
+    def post(self, ex, ctx, outcome):
+        spans = deref_all(outcome[1])
+        shown = []
+        fidx = ex.prog.src.structs['NumberParts'].index('exact_value')
+        for s in spans.fields:
+            s = deref_all(s)
+            if isinstance(s, Enum) and s.vname == 'Child':
+                ch = deref_all(s.fields[0])
+                e = deref_all(ch.fields[fidx]) if isinstance(ch, Struct) and ch.name == 'NumberParts' else None
+                shown.append(deref_all(e.fields[0]) if e is not None and e.variant == 1 else '?')
+        counting = ['E:%d' % i for i in range(self.N) if not ctx['zero'][i]]
+        in_order = [x for x in shown if x in counting]
+        return [('every entry that counts something is shown, in order (shown %s, counting %s)' % (shown, counting), in_order == counting),
+                ('nothing but entries of the list is shown', all(x in ['E:%d' % i for i in range(self.N)] for x in shown))]
+
+    def prefer(self, ctx):
+        return [ctx['vs'][-1] == z3.RealVal('1/2')]
+
+    PROBES = [('5.04 foot -> foot;inch', [('foot', Fraction(3048, 10000)), ('inch', Fraction(254, 10000))], Fraction(504, 100) * Fraction(3048, 10000)),
+              ('3 hour + 20 minute + 1|4 second -> hour;minute;second', [('hour', 3600), ('minute', 60), ('second', 1)], Fraction(3 * 3600 + 20 * 60) + Fraction(1, 4)),
+              ('0.5 s -> minute;second', [('minute', 60), ('second', 1)], Fraction(1, 2)),
+              ('90 s -> minute;second', [('minute', 60), ('second', 1)], Fraction(90))]
+
+    def native(self, inputs, label):
+        return [{'mode': 'query', 'text': t} for t, _, _ in self.PROBES]
+
+    def judge(self, inputs, label, obs):
+        """every non-zero entry of the structured reply must appear in the text: count the `, `-separated parts"""
+        bad = []
+        for (t, units, v), o in zip(self.PROBES, obs):
+            if o.get('outcome') == 'panic' or o.get('render_panic'):
+                bad.append('`%s` panics' % t)
+                continue
+            j = o.get('json') or {}
+            if j.get('type') != 'unitList':
+                continue
+            nonzero = 0
+            for p in j.get('list') or []:
+                num = ((p.get('rawValue') or {}).get('value') or {})
+                try:
+                    if int(num['numer']) != 0:
+                        nonzero += 1
+                except (KeyError, ValueError, TypeError):
+                    pass
+            disp = (o.get('display') or '')
+            body = disp.rsplit(' (', 1)[0]
+            shown = len([x for x in body.split(', ') if x.strip()])
+            if shown < nonzero:
+                bad.append('`%s` prints %r: %d of the %d non-zero entries' % (t, disp, shown, nonzero))
+        return bool(bad), '; '.join(bad[:2]) or 'every counting entry is printed'
+
+
+_c09_prev5 = harnesses
+
+
+def harnesses(tier):   # noqa: F811
+    return _c09_prev5(tier) + [UnitListShown()]
